@@ -16,13 +16,13 @@ func init() { extractors = append(extractors, extractPanics) }
 // (the "read path" of bugs and identities). A data-dependent panic there crashes a pull.
 func extractPanics(c *ctx) {
 	targets := map[string][]string{
-		"entity/dag/entity.go":                {"read", "Read", "readRemote", "readClockNoCheck", "ReadAll", "ReadAllClocksNoCheck"},
-		"entity/dag/entity_actions.go":        {"merge", "MergeAll", "Pull"},
-		"entity/dag/operation_pack.go":        {"readOperationPack", "readOperationPackClock", "unmarshallPack"},
-		"entities/bug/operation.go":           {"operationUnmarshaler"},
-		"entities/identity/identity.go":       {"read", "readAll", "Merge", "Validate"},
+		"entity/dag/entity.go":                  {"read", "Read", "readRemote", "readClockNoCheck", "ReadAll", "ReadAllClocksNoCheck"},
+		"entity/dag/entity_actions.go":          {"merge", "MergeAll", "Pull"},
+		"entity/dag/operation_pack.go":          {"readOperationPack", "readOperationPackClock", "unmarshallPack"},
+		"entities/bug/operation.go":             {"operationUnmarshaler"},
+		"entities/identity/identity.go":         {"read", "readAll", "Merge", "Validate"},
 		"entities/identity/identity_actions.go": {"MergeAll", "Pull"},
-		"entities/identity/version.go":        {"UnmarshalJSON", "Validate"},
+		"entities/identity/version.go":          {"UnmarshalJSON", "Validate"},
 	}
 	type site struct {
 		Fn    string `json:"fn"`
